@@ -216,6 +216,9 @@ const ATOMS: &[(&str, &str, bool)] = &[
     ("\"\"", "string", true),
     ("\"a b\"", "string", true),
     ("\"a\\\"b\"", "string", true),
+    ("\"a\\\"\"", "string", true),
+    ("\"\\\"\"", "string", true),
+    ("\"\\\\\\\"\"", "string", true),
     ("\"\\\\\"", "string", true),
     ("\"(x\"", "string", true),
     ("\")\"", "string", true),
